@@ -150,15 +150,19 @@ static void body(void) {
     }
     int idx = g_sel[vx_choose(g_nsel)];
     const rec_t* r = &g_rec[idx];
-    vx_label("rec#%d %s ;; len=%zu content=%zu dict=%zu", idx, r->name, r->flen, r->clen, r->dlen);
+    /* --parts N: the byte positions of a record are dealt to N executions (position mod N), so that no single execution is long */
+    int nparts = (int)vx_opt_int("--parts", 1), part = nparts > 1 ? vx_choose(nparts) : 0;
+    if (nparts > 1) vx_label("rec#%d part%d/%d %s ;; len=%zu content=%zu dict=%zu", idx, part, nparts, r->name, r->flen, r->clen, r->dlen);
+    else vx_label("rec#%d %s ;; len=%zu content=%zu dict=%zu", idx, r->name, r->flen, r->clen, r->dlen);
     if ((int)r->flen > g_maxlen) { vx_obs_u64(1); return; }
     u8* mut = (u8*)malloc(r->flen + 1);
     const u8* dict = r->dlen ? r->dict : NULL;
     /* intact, every truncation, every single-byte substitution */
     if (run_all(r->frame, r->flen, dict, r->dlen, r->clen)) goto done;
     int family = !strncmp(r->name, "rawtail", 7) || r->clen > 4096;      /* ~800 near-identical frames, and frames regenerating a lot: intact decode, truncations, thinned substitutions */
-    for (size_t k = 0; k < r->flen; k += (family && k + 48 < r->flen ? 8 : 1)) if (run_all(r->frame, k, dict, r->dlen, r->clen)) goto done;
+    for (size_t k = 0; k < r->flen; k += (family && k + 48 < r->flen ? 8 : 1)) if ((int)(k % (size_t)nparts) == part && run_all(r->frame, k, dict, r->dlen, r->clen)) goto done;
     for (size_t p = 0; p < r->flen; p += (family && p + 48 < r->flen ? 16 : 1)) {
+        if ((int)(p % (size_t)nparts) != part) continue;
         int all = (int)r->flen <= g_allvals;
         static const int few[] = {0x01, 0x80, 0xFF, 0x7F, 0x10, 0xFE, 0x02};
         for (int k = 0; k < (all ? 255 : 7); k++) {
@@ -169,7 +173,7 @@ static void body(void) {
         }
     }
     /* corrupted dictionary with the intact frame (decoder side of "arbitrary bytes as a dictionary") */
-    if (r->dlen && r->dlen <= 600) {
+    if (r->dlen && r->dlen <= 600 && part == 0) {
         u8* dm = (u8*)malloc(r->dlen);
         for (size_t p = 0; p < r->dlen && p < 200; p++) for (int k = 0; k < 3; k++) {
             memcpy(dm, r->dict, r->dlen); dm[p] = k == 0 ? (u8)(dm[p] ^ 0x80) : k == 1 ? 0 : 0xFF; if (dm[p] == r->dict[p]) continue;
